@@ -30,7 +30,7 @@ struct C19 : Property
 	std::vector<std::string> probes() const override
 	{
 		return {"append.exact_fit", "append.one_over", "append.doubling_insufficient", "memset.beyond_end_zero_fill", "memset.ends_at_capacity",
-		        "memset.inside", "sprintbuf.long_output", "refused.int_overflow", "refused.alloc_failure", "append_after_unterminated_memset"};
+		        "memset.inside", "sprintbuf.long_output", "refused.int_overflow", "refused.alloc_failure", "append_after_unterminated_memset", "sprintbuf.embedded_nul"};
 	}
 	std::map<std::string, int64_t> cfg_defaults() const override { return {}; }
 
@@ -109,7 +109,7 @@ struct C19 : Property
 			}
 			else if (op.kind == "sprintf")
 			{
-				int64_t which = (int64_t)r.below(3);
+				int64_t which = (int64_t)r.below(4);
 				int64_t len = r.chance(1, 3) ? r.range(120, 135) : (r.chance(1, 2) ? r.range(0, 60) : r.range(128, 600));
 				op.a = {which, (int64_t)r.range(-100000, 100000)};
 				op.data = rand_text(r, (size_t)len);
@@ -313,7 +313,7 @@ struct C19 : Property
 			{
 				std::string expect;
 				char num[64];
-				int which = (int)(op.arg(0) % 3);
+				int which = (int)(op.arg(0) % 4);
 				int val = (int)op.arg(1);
 				const std::string &str = op.data;
 				need = old_bpos + (int64_t)str.size() + 1;
@@ -329,11 +329,22 @@ struct C19 : Property
 					expect = std::string(num) + ":" + str + "!";
 					rc = LIB(sprintbuf(pb, "%d:%s!", val, str.c_str()));
 				}
-				else
+				else if (which == 2)
 				{
 					snprintf(num, sizeof num, "[%12d]", val);
 					expect = str + num;
 					rc = LIB(sprintbuf(pb, "%s[%12d]", str.c_str(), val));
+				}
+				else
+				{
+					// formatted output that contains a NUL byte (%c with 0): every byte counts, not only the C-string prefix
+					char ch = (val & 3) == 0 ? '\0' : (char)('A' + (val & 15));
+					size_t half = str.size() / 2;
+					std::string a = str.substr(0, half), b = str.substr(half);
+					expect = a + std::string(1, ch) + b;
+					rc = LIB(sprintbuf(pb, "%s%c%s", a.c_str(), ch, b.c_str()));
+					if (ch == '\0')
+						ctx.probe("sprintbuf.embedded_nul");
 				}
 				if (expect.size() > 127)
 					ctx.probe("sprintbuf.long_output");
